@@ -38,6 +38,7 @@ static W_ALL: &[(Op, u32)] = &[
     (Op::DestroyListener, 1),
     (Op::Sync, 1),
     (Op::Connect, 3),
+    (Op::Introspection, 7),
 ];
 
 pub static DEF: CheckDef = CheckDef {
@@ -147,6 +148,12 @@ fn gauges(w: &World, p: &Probe) -> Result<(), Fail> {
     }
     if s.obj_uuids != s.objs || s.svc_uuids != s.svcs {
         return Err(Fail::new("snapshot:index-size", format!("index maps differ in size: objs {} / cookies {}, svcs {} / cookies {}", s.objs, s.obj_uuids, s.svcs, s.svc_uuids)));
+    }
+    if p.stats.num_introspections() != w.model.num_introspections() {
+        return Err(Fail::new(
+            "stat-gauge:num_introspections",
+            format!("statistics report num_introspections = {} but {} type ids are registered according to the protocol history", p.stats.num_introspections(), w.model.num_introspections()),
+        ));
     }
     let pending = w.model.calls.len();
     if s.function_calls != pending {
